@@ -13,9 +13,11 @@ package types_test
 import (
 	"bytes"
 	"context"
+	"errors"
 	"testing"
 	"time"
 
+	wrapping "github.com/hashicorp/go-kms-wrapping/v2"
 	"github.com/hashicorp/go-kms-wrapping/v2/aead"
 	"github.com/hashicorp/nodeenrollment"
 	"github.com/hashicorp/nodeenrollment/registration"
@@ -263,6 +265,79 @@ func TestVerifReplayC12(t *testing.T) {
 					if op.Kind == "Store" && newNi.PreviousEncryptionKey != nil && bytes.Contains(b, newNi.PreviousEncryptionKey.PrivateKeyPkcs8) {
 						t.Logf("KNOWN-FINDING C12: NodeInformation.Store hands the retained previous server encryption key to storage in clear")
 					}
+				}
+			}
+		}
+	}
+}
+
+// A storage wrapper that reports no key id, and a wrapper that starts failing part way through a Store:
+// whatever Store reports, no secret reaches storage in clear, a record that was stored loads back as stored
+// with the same wrapper, and never loads without it.
+type c12FlakyWrapper struct {
+	wrapping.Wrapper
+	okCalls int
+}
+
+func (w *c12FlakyWrapper) Encrypt(ctx context.Context, pt []byte, opt ...wrapping.Option) (*wrapping.BlobInfo, error) {
+	if w.okCalls <= 0 {
+		return nil, errors.New("verif: injected wrapper failure")
+	}
+	w.okCalls--
+	return w.Wrapper.Encrypt(ctx, pt, opt...)
+}
+
+func TestVerifReplayC12OddWrappers(t *testing.T) {
+	ctx := context.Background()
+	noId := aead.NewWrapper()
+	if _, err := noId.SetConfig(ctx, aead.WithKey(make([]byte, 32))); err != nil {
+		t.Fatal(err)
+	}
+	good := aead.TestWrapper(t)
+	for name, mk := range map[string]func(k int) wrapping.Wrapper{
+		"wrapper without key id": func(int) wrapping.Wrapper { return noId },
+		"wrapper failing after k calls": func(k int) wrapping.Wrapper { return &c12FlakyWrapper{Wrapper: good, okCalls: k} },
+	} {
+		for k := 0; k <= 3; k++ {
+			w := mk(k)
+			wopt := nodeenrollment.WithStorageWrapper(w)
+			st := vrNew(t)
+			secret1, secret2, nonce := bytes.Repeat([]byte{0x41}, 48), bytes.Repeat([]byte{0x42}, 32), bytes.Repeat([]byte{0x43}, 32)
+			nc := &types.NodeCredentials{Id: string(nodeenrollment.CurrentId), CertificatePublicKeyPkix: []byte("pub-key-pkix"), CertificatePrivateKeyPkcs8: secret1, EncryptionPrivateKeyBytes: secret2, RegistrationNonce: nonce}
+			ni := &types.NodeInformation{Id: "node", CertificatePublicKeyPkix: []byte("pub-key-pkix"), ServerEncryptionPrivateKeyBytes: secret2}
+			roots := &types.RootCertificates{Id: string(nodeenrollment.RootsMessageId),
+				Current: &types.RootCertificate{Id: "current", PublicKeyPkix: []byte("c"), PrivateKeyPkcs8: secret1, CertificateDer: []byte("der")},
+				Next:    &types.RootCertificate{Id: "next", PublicKeyPkix: []byte("n"), PrivateKeyPkcs8: secret2, CertificateDer: []byte("der")}}
+			errs := map[string]error{"node credentials": nc.Store(ctx, st, wopt), "node information": ni.Store(ctx, st, wopt), "roots": roots.Store(ctx, st, wopt)}
+			for _, op := range st.ops {
+				if op.Kind != "Store" {
+					continue
+				}
+				b, _ := proto.Marshal(op.Msg)
+				for sn, s := range map[string][]byte{"a private key": secret1, "an encryption key": secret2, "the registration nonce": nonce} {
+					if _, isNI := op.Msg.(*types.NodeInformation); isNI && sn == "the registration nonce" {
+						continue
+					}
+					if bytes.Contains(b, s) {
+						t.Errorf("%s (k=%d): storage was handed %s in clear in a %T", name, k, sn, op.Msg)
+					}
+				}
+			}
+			if errs["node information"] == nil {
+				if w2, ok := w.(*c12FlakyWrapper); ok {
+					w2.okCalls = 100
+				}
+				got, err := types.LoadNodeInformation(ctx, st, "node", wopt)
+				if err != nil || !bytes.Equal(got.ServerEncryptionPrivateKeyBytes, secret2) {
+					t.Errorf("%s (k=%d): a stored node record does not load back as stored (%v)", name, k, err)
+				}
+				if _, err := types.LoadNodeInformation(ctx, st, "node"); err == nil {
+					t.Errorf("%s (k=%d): a sealed node record loads without the wrapper", name, k)
+				}
+			}
+			if errs["roots"] == nil {
+				if _, err := types.LoadRootCertificates(ctx, st); err == nil {
+					t.Errorf("%s (k=%d): sealed roots load without the wrapper", name, k)
 				}
 			}
 		}
